@@ -31,7 +31,7 @@ def floors(tier):
     q = tier == "quick"
     return {"twins": 60000 if q else 1500000, "text_changed_docs": 15000, "nontext_with_triggers": 15000, "mode.replacements": 10000, "mode.smartquotes": 10000,
             "mode.both": 10000, "sq.regex_checks": 20000, "sq.quotes_replaced": 20000, "autolink_text_checked": 1500, "escaped_full.twins": 10000,
-            "escaped_mixed.twins": 10000, "escaped_mixed.literal_quotes": 10000, "quotes_list_values": 10000, "entity_triggers.twins": 20000, "wl.autolink_twin_text": 8000}
+            "escaped_mixed.twins": 7000, "escaped_mixed.literal_quotes": 10000, "quotes_list_values": 10000, "entity_triggers.twins": 20000, "wl.autolink_twin_text": 8000}
 
 
 def flat(ts, out):
